@@ -128,7 +128,12 @@ pub(crate) fn compile_regex(
         // The fancy_regex crate internally seems to have flags that can be used
         // to enable multiline support, but they're not exposed via its
         // RegexBuilder. We instead just prefix with the right flags.
-        let updated_str = std::format!("(?ms){regex_str}");
+        //
+        // N.B. Only `s` (let `.` match a newline, so that `*` and `?` span lines): with `m`
+        // the anchors `^`/`$` would also match at every line boundary, and a shell pattern
+        // (or a `=~` regex, which POSIX compiles without REG_NEWLINE) has to match against the
+        // whole string, not one line of it.
+        let updated_str = std::format!("(?s){regex_str}");
         regex_str = updated_str.into();
     }
 
